@@ -85,6 +85,24 @@ _PARSER = {
 for _p, (_t, _r, _n) in _PARSER.items():
     CHECKS[_p] = dict(text=_PARSER_COMMON + _t, ref=_r, note=_n, technique=_PARSER_TECH)
 
+CHECKS["C08"] = dict(
+    text=("MC_Spell.tla is a product construction over intended invocations: line A spells every element canonically, line B spells each "
+          "element in any documented equivalent way (--o=v/--o v/-ov/-o v/-o=v, clusters, aliases, unique prefixes under inference, explicit "
+          "--); TLC checks that Run gives equal observations for every element sequence x spelling combination within the bound and that an "
+          "ambiguous prefix is never accepted; both lines of every pair are parsed by the real clap and compared (observation and ArgMatches "
+          "==), and random longer sequences are validated by Trace_Spell.tla on the two real observations."),
+    ref="§4.C08", note="Equivalences documented not to hold (-- under allow_missing_positional/last, attached short values next to a hyphen-accepting positional) are excluded.",
+    technique="TLA+ product spec over Parser.tla model-checked with TLC; TLC-generated line pairs replayed on the real parser; recorded pairs validated by a TLA+ trace spec")
+CHECKS["C11"] = dict(
+    text=("History.tla makes the state a Command value carries between calls explicit (Built flags, bin_name, the names written into "
+          "dispatched subcommands, levels built by the did-you-mean scan) with the public calls as actions; what a call returns is Run on the "
+          "definition. TLC checks monotonicity, idempotent build and that dispatched levels are always named for every history within the "
+          "bound; every history is replayed on one real Command through try_get_matches_from_mut and each parse is compared with the "
+          "specification, a fresh definition and a clone (observation and rendered message); random long histories are validated by "
+          "Trace_History.tla."),
+    ref="§4.C11", note="Different argv[0] between calls is excluded by the property.",
+    technique="TLA+ object-state spec (History.tla) model-checked with TLC; TLC-generated histories replayed on one real Command; recorded histories validated by a TLA+ trace spec")
+
 NOT_YET = "check not built yet in this round (specification module planned in DESIGN.md §4/§5); not claimed until its check exists"
 
 
